@@ -23,7 +23,11 @@ STAT_KEYS = ["reaction_cnt", "balanced_cnt", "rb_applied", "rb_solved", "mcs_app
 def gen_plan(base_seed, i, tier):
     rng = common.rng_for(base_seed, "C06", i)
     n = rng.randint(2, 8) if rng.random() < 0.7 else rng.randint(2, 4)
-    rows = common.pick_rows(rng, n, {"mcs-based": 3, "rule-based": 2, "redox": 1, "input-balanced": 1, "declined": 1, "hand": 1})
+    w = {"mcs-based": 3, "rule-based": 2, "redox": 1, "input-balanced": 1, "declined": 1, "hand": 1, "no-mcs": 0.5}
+    if rng.random() < 0.2:
+        w = {"mcs-based": 12, "no-mcs": 1}  # many reactions of one batch in the MCS stage
+        n = rng.randint(5, 9)
+    rows = common.pick_rows(rng, n, w)
     if rng.random() < 0.3:
         rows.append(rng.choice(rows))  # duplicate
     K = 3 if tier == "quick" else 6
